@@ -341,14 +341,15 @@ def main():
 
     # ---------------- boundary rebuilt from the `faces` tables (MeshIO.Surface_reconstruction) ----------------
     from EasyFEA import MeshIO
-    for et in M.ALL_3D:
+    # prisms also on a transfinite (organised) base mesh: other local faces of the prisms end up on the boundary
+    for et, org in [(t, None) for t in M.ALL_3D] + [(t, True) for t in M.ALL_3D if t.startswith("PRISM")]:
         for (mk, Q, mover, pmap) in moves(3):
             if mk == "translation" and not thorough:
                 continue
-            mesh = MeshIO.Surface_reconstruction(M.mesh_3d(et, 2.0, 1.0, 1.5, 1.0, 2))
+            mesh = MeshIO.Surface_reconstruction(M.mesh_3d(et, 2.0, 1.0, 1.5, 1.0, 2, organised=org))
             mover(mesh)
-            ident = dict(elemType=et, boundary="Surface_reconstruction", move=mk)
-            res.case((et, mk, "reconstructed boundary"))
+            ident = dict(elemType=et, boundary="Surface_reconstruction", move=mk, organised=bool(org))
+            res.case((et, mk, org, "reconstructed boundary"))
             res.count("reconstructed-boundary")
             tot, fl = boundary_integrals(mesh)
             barea = sum(float(np.asarray(g.Get_weightedJacobian_e_pg("mass")).sum()) for g in mesh.Get_list_groupElem(2))
